@@ -318,7 +318,7 @@ def layout_cases(ctx):
     block layout of each: the strategy (block / reblock / column) is decided by the layouts alone."""
     import static_frame as sf
     rng = ctx.rng
-    patterns = ['iii', 'iif', 'ifi'] if ctx.tier == 'quick' else [''.join(p) for p in itertools.product('if', repeat=3)] + ['iUU', 'UUi', 'ii', 'if', 'i', 'iiii', 'iiff']
+    patterns = ['iii', 'iif', 'ifi'] if ctx.tier == 'quick' else [''.join(p) for p in itertools.product('if', repeat=3)] + ['iUU', 'ii', 'if', 'i', 'iiii', 'iiff']
     zoo_frames = []
     for pat in patterns:
         for layout in zoo.layouts_for(dtypes_of(pat)):
@@ -327,7 +327,7 @@ def layout_cases(ctx):
     pairs = [(x, y) for x in zoo_frames for y in zoo_frames if len(x[0]) == len(y[0])]
     if ctx.tier != 'quick':
         trip = [(x, y, z) for x in zoo_frames for y in zoo_frames for z in zoo_frames if len(x[0]) == len(y[0]) == len(z[0]) == 3]
-        pairs = pairs + rng.sample(trip, min(len(trip), ctx.n(0, 3000)))
+        pairs = pairs + rng.sample(trip, min(len(trip), ctx.n(0, 1500)))
     for combo in pairs:
         frames = []
         pos = 0
@@ -647,7 +647,7 @@ def witness_cases(ctx):
 # ----------------------------------------------------------------------------- kernel: the set operations on labels
 def set_kernel_cases(ctx):
     """container_util.index_many_set (-> util.ufunc_set_iter) called directly on EVERY pair of duplicate-free label lists over three
-    labels (plus 300 sampled triples in quick; every triple, and every pair over four labels, in thorough), union and intersection,
+    labels (plus 300 sampled triples; every int triple, and every pair over four labels, in thorough), union and intersection,
     int and str labels."""
     import static_frame as sf
     from static_frame.core.container_util import index_many_set
@@ -660,7 +660,7 @@ def set_kernel_cases(ctx):
         arr = arrangements(pool)
         combos = [c for c in itertools.product(arr, repeat=2)]
         triples = [c for c in itertools.product(arr, repeat=3)]
-        combos += triples if ctx.tier != 'quick' else ctx.rng.sample(triples, 300)
+        combos += triples if (ctx.tier != 'quick' and pool_kind == 'int') else ctx.rng.sample(triples, 300)
         if ctx.tier != 'quick' and pool_kind == 'int':
             arr4 = arrangements([0, 1, 2, 3])
             combos += [c for c in itertools.product(arr4, repeat=2)]
